@@ -3,6 +3,7 @@ import SodiumVerif.Model.SchedScript
 import SodiumVerif.Spec.Script
 import SodiumVerif.Model.TxnScript
 import SodiumVerif.Model.Conc
+import SodiumVerif.Model.Struct
 
 open SodiumVerif
 
@@ -26,6 +27,13 @@ partial def txnLoop (h : IO.FS.Stream) (out : IO.FS.Stream) (s : TxnScript.S) : 
   let (s', o) := TxnScript.step s line
   out.putStrLn o
   txnLoop h out s'
+
+partial def structLoop (h : IO.FS.Stream) (out : IO.FS.Stream) (s : Struct.PSt) : IO Unit := do
+  let line ← h.getLine
+  if line.isEmpty then return ()
+  let (s', o) := Struct.step s line
+  out.putStrLn o
+  structLoop h out s'
 
 def concLine (line : String) : String :=
   let parts := (line.splitOn "|").map (·.trimAscii.toString)
@@ -73,4 +81,5 @@ def main (args : List String) : IO UInt32 := do
   | ["spec"] => specMain stdin stdout; return 0
   | ["txn"] => txnLoop stdin stdout {}; return 0
   | ["conc"] => concLoop stdin stdout; return 0
-  | _ => IO.eprintln "usage: driver gc|node|api|spec < script"; return 2
+  | ["struct"] => structLoop stdin stdout {}; return 0
+  | _ => IO.eprintln "usage: driver gc|node|txn|spec|conc|struct < script"; return 2
